@@ -20,10 +20,13 @@ pub struct Case {
     pub target: i32,
     /// (cell spec, levels above the target 0..=8, or finer flag)
     pub items: Vec<(gen::CellSpec, u8, bool)>,
+    /// related mode: every item is derived from the first one (its siblings in any order, duplicates,
+    /// a cousin, its parent): the shapes a sibling-run shortcut would look at. One relation code per item.
+    pub related: Vec<u8>,
 }
 
 fn case_json(c: &Case) -> Value {
-    json!({"target": c.target, "items": c.items.iter().map(|(s, d, f)| json!([gen::cellspec_json(s), d, f])).collect::<Vec<_>>()})
+    json!({"target": c.target, "items": c.items.iter().map(|(s, d, f)| json!([gen::cellspec_json(s), d, f])).collect::<Vec<_>>(), "related": c.related})
 }
 fn case_from_json(v: &Value) -> Option<Case> {
     Some(Case {
@@ -33,6 +36,7 @@ fn case_from_json(v: &Value) -> Option<Case> {
             .iter()
             .map(|x| Some((gen::cellspec_from_json(&x[0])?, x[1].as_u64()? as u8, x[2].as_bool()?)))
             .collect::<Option<Vec<_>>>()?,
+        related: v["related"].as_array().map(|a| a.iter().filter_map(|x| x.as_u64().map(|y| y as u8)).collect()).unwrap_or_default(),
     })
 }
 
@@ -63,6 +67,34 @@ fn check_case(case: &Case, st: &mut Stats) -> Result<(), String> {
             }
         };
         cells.push(c);
+    }
+    if !case.related.is_empty() && !cells.is_empty() && cells[0].res >= 2 {
+        // rebuild the list from the first cell's sibling group
+        let first = cells[0];
+        let parent = tree::parent(&first).unwrap();
+        let sibs = tree::children(&parent);
+        let mut out = Vec::new();
+        for (i, r) in case.related.iter().enumerate() {
+            let c = match r % 8 {
+                0..=3 => sibs[(*r as usize) % sibs.len()],
+                4 => sibs[i % sibs.len()],
+                5 => first,
+                6 => {
+                    // a cousin: same position in the next sibling group
+                    let mut x = sibs[i % sibs.len()];
+                    x.pos ^= 4;
+                    if x.is_valid() { x } else { first }
+                }
+                _ => cells[i % cells.len()],
+            };
+            if tree::num_descendants(&c, t.max(c.res)) <= crate::props::c07::MAX_FANOUT && c.res <= t {
+                out.push(c);
+            }
+        }
+        if !out.is_empty() {
+            cells = out;
+            st.hit("related-list(sibling group in any order, duplicates, cousins)");
+        }
     }
     let ids: Vec<u64> = cells.iter().map(codec::encode).collect();
     let expect_err = cells.iter().any(|c| c.res > t);
@@ -138,7 +170,8 @@ pub fn run(tier: Tier, seed: u64) -> Report {
                 -1i32..=29,
                 proptest::collection::vec((gen::cell_spec(-1, 29), prop_oneof![3 => 0u8..=2, 2 => 0u8..=8, 1 => 20u8..=31], proptest::bool::weighted(0.08)), 0..=6),
             )
-                .prop_map(|(target, items)| Case { target, items })
+                .prop_flat_map(|(target, items)| (Just(target), Just(items), prop_oneof![2 => Just(Vec::new()), 1 => proptest::collection::vec(0u8..8, 2..7)]))
+                .prop_map(|(target, items, related)| Case { target, items, related })
                 .boxed()
         },
         check_case,
